@@ -80,6 +80,7 @@ func hookOrder(site string, n int) []int {
 }
 
 func hookStep(fn string) {
+	stepYieldPoint()
 	c := cur()
 	if c == nil {
 		return
